@@ -55,3 +55,32 @@ def permutations_of_multiset(items):
         if p not in seen:
             seen.add(p)
             yield p
+
+
+# ---------------------------------------------------------------- size-boundary family
+_DIG = "ACDEFGHIKL"
+
+
+def filler(i, width=5):
+    """deterministic filler string for position i: every decimal digit is written twice, so two fillers differ in >= 2 places
+    (never within one edit of each other) and a filler (10 letters over ACDEFGHIKL) is >= 3 edits from any family member"""
+    return "".join(_DIG[int(d)] * 2 for d in str(i).zfill(width))
+
+
+def size_family(N, marks=(256, 1024, 65536), halo=3):
+    """N strings; the positions next to 0, N-1 and every power-of-two mark below N hold a clonal family (13-mers, all within 2
+    substitutions of each other), all other positions hold mutually distant fillers.  Returns (strings, family positions)."""
+    seed = "WYWYWMMWYWYWY"
+    pos = set(range(0, halo + 1)) | set(range(max(0, N - halo - 1), N))
+    for m in marks:
+        pos |= {p for p in range(m - halo, m + halo + 1) if 0 <= p < N}
+    pos = sorted(pos)
+    fam = []
+    letters = "ACDEFGHIKLMNPQRSTV"
+    for n, p in enumerate(pos):
+        site = 5 + (n // len(letters)) % 3
+        fam.append(seed[:site] + letters[n % len(letters)] + seed[site + 1:])
+    out = [filler(i) for i in range(N)]
+    for p, s in zip(pos, fam):
+        out[p] = s
+    return out, pos
